@@ -32,9 +32,11 @@ theorem monitor_rejects_background_notifier :
       = some (.peerNotCancelled 1) := by decide
 
 /-- Nothing is left to run: no request in transit, queued or being handled, no response travelling or consumed
-but not returned. -/
+but not returned,
+no retired call whose caller has not returned. -/
 def Final (c : Cfg) (s : St) : Prop :=
   ∀ i, i < c.n → (s.req i = .idle ∨ s.req i = .finished ∨ s.req i = .skipped) ∧ s.respTransit i = false ∧ s.got i = false
+    ∧ (s.retired i = true → s.res i ≠ none)
 
 /-- **monEnd_accepts_final.** In a final state of the model every call that was issued has returned. -/
 theorem monEnd_accepts_final {c : Cfg} (hk : c.keepValues = true) (ls : List Label) {s : St}
@@ -42,11 +44,12 @@ theorem monEnd_accepts_final {c : Cfg} (hk : c.keepValues = true) (ls : List Lab
   rw [traceOf_eq h]
   have I := inv_run hk ls h
   unfold monEnd
+  simp only [Bool.false_eq_true, if_false]
   have : (List.range c.n).find? (fun i => ((summ s.trace).snd i).isSome && ((summ s.trace).ret i).isNone) = none := by
     rw [List.find?_eq_none]
     intro i hi
     have hi' : i < c.n := List.mem_range.mp hi
-    obtain ⟨hreq, hrt, hgot⟩ := hf i hi'
+    obtain ⟨hreq, hrt, hgot, hretd⟩ := hf i hi'
     simp only [Bool.and_eq_true, not_and, Bool.not_eq_true, Option.isNone_eq_false_iff]
     intro hs
     have h1 := I.snd_iff i
@@ -62,7 +65,7 @@ theorem monEnd_accepts_final {c : Cfg} (hk : c.keepValues = true) (ls : List Lab
       | some x => rfl
     | none =>
       exfalso
-      rcases I.inflight i hidle hr with hreg | hg
+      rcases I.inflight i hidle hr with hreg | hg | hrd
       · have hfs : s.req i = .finished ∨ s.req i = .skipped := by
           rcases hreq with h' | h' | h'
           · exact absurd h' hidle
@@ -71,6 +74,7 @@ theorem monEnd_accepts_final {c : Cfg} (hk : c.keepValues = true) (ls : List Lab
         have := I.answered i hreg hfs
         rw [hrt] at this; cases this
       · rw [hgot] at hg; cases hg
+      · exact hretd hrd hr
   simp [this]
 
 end Cancel
